@@ -1,5 +1,6 @@
 import TrionModel.Lemmas.AsmScopeRel
 import TrionModel.Lemmas.AsmScopeProv
+import TrionModel.Lemmas.AsmScopeSim
 /-!
 # C14 on the whole-pipeline model — constant visibility follows file scope
 
@@ -456,6 +457,77 @@ theorem isolation_asm_undefined_main {fs : Bytes → Option Bytes} {enc : Encode
     rw [hg4]
     exact (nodef_file hnd fuel _ data main _ st4 r hfs rfl rfl (fun w hw => by simp [St.init, Table.find] at hw) hb).2
 
+/-! ## simulation — the scope machine of Props/C14.lean is the scope-relevant projection of `Asm`
+
+`scopeOf st env : Scope.State` (Lemmas/AsmScopeSim.lean) keeps both tables, both task queues (closures of `.global` as
+themselves, retried statements as opaque retries), the depth of the path stack and the scope-class diagnostics of a
+context of the whole-pipeline model.  `outOf` / `exOf` forget which panic site was hit (a panic of one model is a panic
+of the other).  The frame stack of `Scope` corresponds to the activations of `assembleFile` and is not part of `St`:
+the squares below are those of ONE activation; entering and leaving a file are the last theorem. -/
+
+/-- C14.simulation_asm (primitives)  `Arm6M::is_register`, `get_constant`, `insert_constant`, `defer_constant` and
+`add_task` of the two models commute with `scopeOf`: same table effect, same `ConstantError`, same panic condition. -/
+theorem simulation_asm_primitives (st : St) (env : Env) (n : Bytes) (v : Int) (r : Realm) (t : Task) :
+    Scope.isReg n = Front.isRegister n ∧
+    (Scope.getConstant (scopeOf st env) n (realmOf r) =
+      match getConstant st n r with
+      | .ok lk => .ok (lookupOf lk)
+      | .stop _ => .error .noLocalScope) ∧
+    (Scope.insertConstant (scopeOf st env) n v (realmOf r) =
+      match insertConstant st n v r with
+      | .ok (st', x) => .ok (scopeOf st' env, exceptOf x)
+      | .stop _ => .error .noLocalScope) ∧
+    (Scope.deferConstant (scopeOf st env) n (realmOf r) =
+      match deferConstant st n r with
+      | .ok (st', x) => .ok (scopeOf st' env, exceptOf x)
+      | .stop _ => .error .noLocalScope) ∧
+    (Scope.addTask (scopeOf st env) (taskOf t) (realmOf r) =
+      match addTask st t r with
+      | .ok st' => .ok (scopeOf st' env)
+      | .stop _ => .error .noLocalScope) :=
+  ⟨isReg_eq n, sim_getConstant st env n r, sim_insertConstant st env n v r, sim_deferConstant st env n r,
+   sim_addTask st env t r⟩
+
+/-- C14.simulation_asm (statements)  Each scope-relevant statement of `Asm` — a label at the region cursor, `.const n, e`
+with the value of `e`, `.global n`, `.import n`, `.export n` — and the closure `.global` queues, run on a context `st`,
+does to `scopeOf st` exactly what the corresponding op of the scope machine does: the same new tables and queues, the
+same result level (`Ok` / trivial / fatal), the same diagnostic class recorded (or none), and a panic exactly when the
+scope machine panics. -/
+theorem simulation_asm_statements {fs : Bytes → Option Bytes} {enc : Encoder} {inc : Inc} (st : St) (env : Env)
+    (line col : Nat) (n : Bytes) :
+    (∀ (el : Element) (a : Nat), el.val = .label n → currAddr st = some a →
+      exOf (Scope.doLabel (scopeOf st env) n a 0) = outOf env (statement fs enc inc env st el)) ∧
+    (∀ (e : Arg) (v : Int), evalStrict "const" env st line col e = .ok (.ok (.const v)) →
+      exOf (Scope.doConst (scopeOf st env) n v 0) = outOf env (constDirective env st line col [.ident n, e])) ∧
+    exOf (Scope.doGlobal (scopeOf st env) n 0) = outOf env (globalDirective .global env st line col [.ident n]) ∧
+    exOf (Scope.doImport (scopeOf st env) n 0) = outOf env (globalDirective .import_ env st line col [.ident n]) ∧
+    exOf (Scope.doExport (scopeOf st env) n 0) = outOf env (globalDirective .export_ env st line col [.ident n]) ∧
+    exOf (Scope.runGlobalCopy (scopeOf st env) n 0) = outOf env (runGlobalCopy n line col env st) :=
+  ⟨fun el a hv hc => sim_label st env el n a hv hc, fun e v he => sim_const st env line col n e v he,
+   sim_global st env line col n, sim_import st env line col n, sim_export st env line col n,
+   sim_globalCopy st env line col n⟩
+
+/-- C14.simulation_asm (entering and leaving a file)  The `mem::replace` swaps: `Scope.enterFile` on `scopeOf st` yields the
+tables and queues of `Asm.enterFile st` and a `PathFrame` holding what `Asm.enterFile` returns for `leaveFile`; and
+`Scope.intoInner` on such a frame restores what `Asm.leaveFile` restores. -/
+theorem simulation_asm_swap (st st4 : St) (env : Env) (tag : Nat) (path : Bytes) (fs : List Scope.Saved) :
+    (let s' := Scope.enterFile (scopeOf st env) tag
+     let st2 := (enterFile st).2.2
+     s'.globals = st2.globals ∧ s'.locals = st2.locals ∧ s'.globalTasks = st2.globalTasks.map taskOf ∧
+     s'.localTasks = st2.localTasks.map (·.map taskOf) ∧
+     s'.depth = (⟨path :: env.paths, path⟩ : Env).paths.length ∧
+     (s'.frames.head?.map (·.constants)) = some (enterFile st).1 ∧
+     (s'.frames.head?.map (·.tasks)) = some ((enterFile st).2.1.map (·.map taskOf))) ∧
+    ∃ s', Scope.intoInner { scopeOf st4 ⟨path :: env.paths, path⟩ with
+        frames := ⟨env.paths.length + 1, (enterFile st).1, (enterFile st).2.1.map (·.map taskOf), tag⟩ :: fs }
+        ⟨env.paths.length + 1, (enterFile st).1, (enterFile st).2.1.map (·.map taskOf), tag⟩ fs = .ok s' ∧
+      s'.globals = (leaveFile (enterFile st).1 (enterFile st).2.1 st4).globals ∧
+      s'.locals = (leaveFile (enterFile st).1 (enterFile st).2.1 st4).locals ∧
+      s'.globalTasks = (leaveFile (enterFile st).1 (enterFile st).2.1 st4).globalTasks.map taskOf ∧
+      s'.localTasks = (leaveFile (enterFile st).1 (enterFile st).2.1 st4).localTasks.map (·.map taskOf) ∧
+      s'.depth = env.paths.length ∧ s'.frames = fs :=
+  ⟨sim_enterFile st env tag path, sim_leaveFile st4 path env.paths _ _ fs tag⟩
+
 /-! ## non-vacuity -/
 
 private def x : Bytes := bytesOf "x"
@@ -473,6 +545,12 @@ example : statement (fun _ => none) encoder (fun _ _ _ _ => .stop .fuel) ⟨[[10
     .ok (({ St.init with locals := some [(x, some 1)], localTasks := some [] } : St).push ⟨[[109]], [109]⟩ 3 5
       (.dirApply "const" (.constDirDuplicate x)), .err .fatal) :=
   dup_const_asm (v := 2) (w := 1) rfl rfl (by rfl) rfl (by decide) (by decide)
+
+/-- the hypotheses of `frame_asm` / `monotone_asm_include` / `isolation_asm_include` are satisfiable in their interesting
+branch: a file whose table has `x = 1` includes an (empty) file; the `.include` runs the recursion and returns -/
+example : ∃ st' r, includeDirective (fun _ => some []) (assembleFile (fun _ => some []) encoder 1) ⟨[[109]], [109]⟩
+      { St.init with locals := some [(x, some 1)], localTasks := some [] } 1 1 [.str [120]] = .ok (st', r) ∧
+    st'.locals = some [(x, some 1)] := ⟨_, _, rfl, rfl⟩
 
 /-- register names are reserved, ordinary names are not -/
 example : Front.isRegister (bytesOf "r0") = true ∧ Front.isRegister (bytesOf "SP") = true ∧
